@@ -1171,3 +1171,24 @@ def _parents_of(root, target):
         if n.get("k") == "Block" and any(s is target for s in n.get("stmts", [])):
             return list(parents) + [n]
     return []
+
+
+_LET_CACHE = {}
+
+
+def cond_text(fn, c):
+    """text of a condition with the boolean locals it reads replaced by what they were bound to (`let open = matches!(..); if
+    ctx.inside_pure && open`): one step of let-inlining, enough for a named test"""
+    key = id(fn)
+    if key not in _LET_CACHE:
+        inits = {}
+        for l in nodes(fn_body(fn), "Let"):
+            if l.get("init") is not None and isinstance(l.get("pat"), dict) and l["pat"].get("k") == "Binding":
+                inits[l["pat"]["hid"]] = l["init"]
+        _LET_CACHE[key] = inits
+    inits = _LET_CACHE[key]
+    t = pp(c)
+    for x in nodes(c, "Path"):
+        if x.get("res") == "Local" and x.get("hid") in inits and "bool" in (x.get("ty") or ""):
+            t += " /*%s=*/ %s" % (x.get("name"), pp(inits[x["hid"]]))
+    return t
